@@ -4,6 +4,7 @@ import (
 	"errors"
 	"fmt"
 	"strconv"
+	"strings"
 
 	"github.com/codenotary/immudb/embedded/sql"
 
@@ -29,6 +30,39 @@ func c12Body(r *simcore.Run) {
 		s.mustExec("CREATE UNIQUE INDEX ON t(a)")
 	}
 	s.mustExec("CREATE INDEX ON t(b)")
+	// a table whose newest column is dropped and another one added while the sessions run:
+	// rows written before keep what they held, the new column is NULL until it is written
+	colChurn := r.Pct(50)
+	wNewType := []string{"VARCHAR[4]", "VARCHAR[4]", "INTEGER"}[r.Intn(3)]
+	wTag := map[string]string{} // id -> value of the new column, as the model has it
+	wLive := false              // the new column exists (its ADD COLUMN was committed)
+	if colChurn {
+		s.mustExec("CREATE TABLE w (id INTEGER, k INTEGER, extra VARCHAR[48], PRIMARY KEY id)")
+		for i := 1; i <= 2+r.Intn(2); i++ {
+			s.mustExec(fmt.Sprintf("INSERT INTO w (id, k, extra) VALUES (%d, %d, '%s')", i, i, strings.Repeat("e", 40+i)))
+			wTag[strconv.Itoa(i)] = "NULL"
+		}
+	}
+	c12WRows := func(what string) {
+		if !colChurn || !wLive {
+			return
+		}
+		rows, err := s.query(nil, "SELECT id, k, tag FROM w")
+		if err != nil {
+			if isBenignTxErr(err) {
+				return
+			}
+			r.Violation("scan-error", "w", "%s: scanning w (column tag was added by a committed ALTER TABLE) failed: %v", what, err)
+		}
+		if len(rows) != len(wTag) {
+			r.Violation("rows-lost", "w", "%s: w holds %d rows, %d were inserted: %v", what, len(rows), len(wTag), rows)
+		}
+		for _, row := range rows {
+			if want, ok := wTag[row[0]]; !ok || row[2] != want {
+				r.Violation("column-content", "w", "%s: row id=%s of w holds tag=%q; the column was added after the row was written and the last committed write to it set %q (ok=%v): a value that was never written to that column: %v", what, row[0], row[2], want, ok, rows)
+			}
+		}
+	}
 	r.Sched.SetSwitchPct(r.Pick(100, 50, 20))
 	nSess := 2 + r.Intn(3)
 	per := 2 + r.Intn(8)
@@ -192,6 +226,57 @@ func c12Body(r *simcore.Run) {
 			}
 		}))
 	}
+	if colChurn {
+		tasks = append(tasks, r.Sched.Go("ddl-w", func() {
+			step := func(q string) bool {
+				r.Yield("c12-ddl-w")
+				_, _, err := s.exec(nil, q)
+				r.Logf("ddl-w: %s -> %v", q, err)
+				if err != nil && !isBenignTxErr(err) {
+					r.Violation("stmt-error", "w", "%q failed: %v", q, err)
+				}
+				return err == nil
+			}
+			if !step("ALTER TABLE w DROP COLUMN extra") {
+				return
+			}
+			if r.Bool() {
+				if step("INSERT INTO w (id, k) VALUES (7, 7)") {
+					wTag["7"] = "NULL"
+				}
+			}
+			if r.Pct(30) {
+				// another committed catalog change in between
+				step("CREATE TABLE w2 (id INTEGER, PRIMARY KEY id)")
+			}
+			if !step("ALTER TABLE w ADD COLUMN tag " + wNewType) {
+				return
+			}
+			wLive = true
+			r.Probe("c12-column-dropped-and-added")
+			c12WRows("right after ALTER TABLE ADD COLUMN")
+			vals := []string{"'ab'", "'cd'"}
+			if wNewType == "INTEGER" {
+				vals = []string{"11", "22"}
+			}
+			for i := 0; i < 1+r.Intn(3); i++ {
+				id := strconv.Itoa(1 + r.Intn(3))
+				v := vals[r.Intn(2)]
+				if _, known := wTag[id]; known && step(fmt.Sprintf("UPDATE w SET tag = %s WHERE id = %s", v, id)) {
+					wTag[id] = strings.Trim(v, "'")
+				}
+				if r.Pct(30) && wNewType != "INTEGER" {
+					r.Yield("c12-ddl-w")
+					if _, _, err := s.exec(nil, "INSERT INTO w (id, k, tag) VALUES (9, 9, 'toolong')"); err == nil {
+						r.Violation("max-length", "w", "INSERT of 'toolong' into the VARCHAR[4] column tag of w succeeded")
+					} else if !errors.Is(err, sql.ErrMaxLengthExceeded) && !isBenignTxErr(err) {
+						r.Violation("stmt-error", "w", "INSERT of a too long value into w.tag failed with %v, not with the length error", err)
+					}
+				}
+				c12WRows("after a write to the new column")
+			}
+		}))
+	}
 	if r.Pct(40) {
 		// DDL that is rolled back leaves no trace: the constraint stays in force
 		tasks = append(tasks, r.Sched.Go("ddl-rollback", func() {
@@ -243,10 +328,12 @@ func c12Body(r *simcore.Run) {
 		}
 	}
 	c12GRows("after the workload")
+	c12WRows("after the workload")
 	if r.Pct(40) {
 		s.reopen()
 		c12Invariants(s, "after restart")
 		c12GRows("after restart")
+		c12WRows("after restart")
 	}
 	s.se.st.Close()
 	r.Sig("c12", nSess, per, violations > 0, lateIndex)
